@@ -397,6 +397,9 @@ var c04Hostile = [][]byte{
 	[]byte(`{"type":"Person","id":"https://a.b/\u2028","preferredUsername":"x\u2029","publicKey":{"id":"https://a.b/k\u2028","owner":"https://a.b/\\","publicKeyPem":"\u2029\u000b"}}`),
 	[]byte(`{"type":"Link\u2028","href":"https://a.b/l","mediaType":"text/\u2029","hrefLang":"e\u2028n","rel":"x\u000b"}`),
 	[]byte(`{"type":"Create","id":"https://a.b/c","object":{"type":"Note","source":{"content":"\u2028\u2029","mediaType":"t\u000b"}},"summaryMap":{"e\u2028n":"v"}}`),
+	// plain texts (no JSON at all) holding a backslash-u that is followed by something else than four hex digits: what the text
+	// decoders and the fallbacks of the language-value decoders get when a caller hands them raw text
+	[]byte(`C:\users\public`), []byte(`\underline{x} and \u00e9 and \u00g9`), []byte(`"caf\u00g9 unterminated`), []byte(`\u`), []byte(`\u12`), []byte(`\uZZZZ\uZZZZ\uZZZZ`), []byte(`{"en":"x\uqqqq"`),
 	// language-tagged texts that are not valid UTF-8, in values that have an id (the verbose formatter prints those): the parser passes the bytes through
 	[]byte("{\"type\":\"Note\",\"id\":\"https://a.b/n\",\"nameMap\":{\"en\":\"caf\xe9\",\"fr\":\"\xff\xfe\"},\"summaryMap\":{\"de\":\"\xc3\"},\"content\":\"\x80\",\"contentMap\":{\"en\":\"\xed\xa0\x80\"}}"),
 	[]byte("{\"type\":\"Person\",\"id\":\"https://a.b/p\",\"preferredUsernameMap\":{\"en\":\"\xf8\x88\"},\"name\":\"\xf8\",\"summaryMap\":{\"en\":\"a\xc0\xafb\",\"-\":\"\xfe\"}}"),
